@@ -416,6 +416,30 @@ fn large_programs() -> Vec<(String, Program)> {
         code.push(b::mov(b::r16("di"), b::imm(0x600D)));
         v.push((format!("call at emitted index {}", call_at), Program { data: vec![], code }));
     }
+    // more than 255 of each kind of named thing; a call chain deeper than 255
+    {
+        let n = 300usize;
+        let mut code: Vec<Item> = Vec::new();
+        // p0 is a leaf, p(k) calls p(k-1): calling p299 nests 300 calls
+        code.push(b::proc("p0", vec![Item::Ins(Instr::Un(UnOp::Inc, Opnd::R16(R_DX)))]));
+        for k in 1..n {
+            code.push(Item::Proc(format!("p{}", k), vec![b::call(&format!("p{}", k - 1)), Item::Ins(Instr::Un(UnOp::Inc, Opnd::R16(R_SI)))]));
+        }
+        code.push(b::label("start"));
+        for k in [0usize, 1, 254, 255, 256, 257, 299] {
+            code.push(b::call(&format!("p{}", k)));
+        }
+        // 300 labels, jumps to the ones around 255/256 (each skips an instruction that must not run)
+        for k in 0..n {
+            if [254usize, 255, 256, 299].contains(&k) {
+                code.push(b::jmp("jmp", &format!("l{}", k)));
+                code.push(b::mov(b::r16("di"), b::imm(0x0BAD)));
+            }
+            code.push(Item::Label(format!("l{}", k)));
+            code.push(Item::Ins(Instr::Un(UnOp::Inc, Opnd::R16(R_BX))));
+        }
+        v.push(("300 procedures (call depth 300) and 300 labels".into(), Program { data: vec![], code }));
+    }
     // a loop whose body crosses index 2^16, and a procedure defined beyond it
     {
         let mut code = vec![b::label("start"), b::mov(b::r16("cx"), b::imm(2)), b::jmp("jmp", "again")];
@@ -492,7 +516,7 @@ pub fn run(tier: &Tier) -> i32 {
     c.states.fetch_add(st.programs.load(Ordering::Relaxed), Ordering::Relaxed);
     let mut cov = Coverage::default();
     cov.exhaustive = true;
-    cov.rule = format!("all sequences of at most {} items over a {}-item alphabet (stc, clc, cmc, labels a/b, the label start at every position, jmp/jc/jnc/loop to a/b, mov cx, call f/g, hlt, print flags, a macro use, nop, six procedure definitions incl. explicit ret + dead code, nested call, a local loop, a body ending in an unconditional jump to a label at the closing brace, a body that emits nothing) that are well formed (in the quick tier the macro use only in sequences below the maximum length; labels and procedures defined once, targets defined, procedures defined before their call); each rendered to source, assembled by the real Preprocessor and run by a replica of the driver loop around the real Interpreter; the complete executed trace, the halt reason and the final registers are compared with a reference interpreter working on the AST. All programs with at most {} items also run through the real CLI binary and its stdout is matched against the reference event list. Plus 6 large programs whose calls, returns, loop bodies, labels and procedures lie at emitted-instruction indices 65534..70000 (an index held in 16 bits wraps there). Diverging programs (reference step horizon 2000) and programs that fall into a procedure are discarded and counted. transitions = executed instructions; states = programs", k, alpha.len(), kcli);
+    cov.rule = format!("all sequences of at most {} items over a {}-item alphabet (stc, clc, cmc, labels a/b, the label start at every position, jmp/jc/jnc/loop to a/b, mov cx, call f/g, hlt, print flags, a macro use, nop, six procedure definitions incl. explicit ret + dead code, nested call, a local loop, a body ending in an unconditional jump to a label at the closing brace, a body that emits nothing) that are well formed (in the quick tier the macro use only in sequences below the maximum length; labels and procedures defined once, targets defined, procedures defined before their call); each rendered to source, assembled by the real Preprocessor and run by a replica of the driver loop around the real Interpreter; the complete executed trace, the halt reason and the final registers are compared with a reference interpreter working on the AST. All programs with at most {} items also run through the real CLI binary and its stdout is matched against the reference event list. Plus 7 large programs (one with 300 procedures nested to call depth 300 and 300 labels; six) whose calls, returns, loop bodies, labels and procedures lie at emitted-instruction indices 65534..70000 (an index held in 16 bits wraps there). Diverging programs (reference step horizon 2000) and programs that fall into a procedure are discarded and counted. transitions = executed instructions; states = programs", k, alpha.len(), kcli);
     cov.bounds = json!({"max_items": k, "alphabet": alpha.len(), "cli_max_items": kcli, "programs": st.programs.load(Ordering::Relaxed), "discarded_diverging": st.diverging.load(Ordering::Relaxed), "discarded_fall_into_procedure": st.ret_empty.load(Ordering::Relaxed), "tier": tier.name()});
     cov.assumptions = common_assumptions();
     cov.assumptions.push("NOP may assemble to zero or one instruction; traces are compared with NOPs removed".into());
